@@ -113,14 +113,22 @@ def _reg_must_and_key(db: ProgramDB) -> List[Instance]:
     orig = writer.positional_params[1] if len(writer.positional_params) > 1 else "original_new"
     alloc = [n for n in own_nodes(writer.node) if isinstance(n, ast.Assign) and isinstance(n.value, ast.Call)
              and isinstance(n.value.func, ast.Name) and n.value.func.id == orig]
-    if len(alloc) != 1 or not isinstance(alloc[0].targets[0], ast.Name):
+    # one allocation per path (the allocator is called with or without the constructor arguments), all into the same name
+    if not alloc or not all(isinstance(a.targets[0], ast.Name) for a in alloc) or len({a.targets[0].id for a in alloc}) != 1:
         raise AnalysisError(f"{writer.short}: allocation `instance = {orig}(cls)` not found")
     inst_name = alloc[0].targets[0].id
     cls_param = writer.positional_params[0]
-    alloc_ok = len(alloc[0].value.args) >= 1 and unparse(alloc[0].value.args[0]) == cls_param
-    out.append(inst("REG-MUST", HOLDS if alloc_ok else VIOLATION, writer, f"{writer.short}[allocates the runtime class]",
-                    f"`{unparse(alloc[0])}` allocates an instance of the class handed to __new__" if alloc_ok else
-                    f"`{unparse(alloc[0])}` does not allocate the runtime class `{cls_param}`", line=alloc[0].lineno))
+
+    def alloc_transfer(node: Node, st: int):
+        return min(2, st + sum(1 for a in alloc if node.ast is a))
+    INa = run_forward(wcfg, 0, alloc_transfer, kinds=("n",))
+    a_counts = {st for r in wcfg.nodes if r.kind == "return" for st in INa[r.id]}
+    once = a_counts == {1}
+    for a in alloc:
+        alloc_ok = len(a.value.args) >= 1 and unparse(a.value.args[0]) == cls_param and once
+        out.append(inst("REG-MUST", HOLDS if alloc_ok else VIOLATION, writer, f"{writer.short}[allocates the runtime class]",
+                        f"`{unparse(a)}` allocates an instance of the class handed to __new__ (one allocation on every path)" if alloc_ok else
+                        f"`{unparse(a)}` does not allocate the runtime class `{cls_param}` exactly once (allocations per path: {sorted(a_counts)})", line=a.lineno))
 
     def is_insert(c: ast.Call) -> bool:
         return isinstance(c.func, ast.Attribute) and c.func.attr == "insert" and isinstance(c.func.value, ast.Subscript) \
@@ -508,4 +516,54 @@ def rule_reg_live_conclusions(db: ProgramDB) -> List[Instance]:
                     ("conclusions inherit the recursive reset" if not overridden else
                      "Conclusion overrides the reset without visiting the variables of its value: a variable declared without a domain that only a conclusion mentions "
                      "(Add(v, Dr(handle=h)) with h = let(H)) keeps the registry snapshot of the first evaluation")))
+    return out
+
+
+# ---------------------------------------------------------------------------------- ALLOC-AS-UNDECORATED
+def rule_alloc_as_undecorated(db: ProgramDB) -> List[Instance]:
+    """Outside every block a decorated class is constructed like the undecorated one: the allocator is the __new__ Python itself
+    would find (the class's own, an inherited one, a builtin base's), and unless that is object.__new__ it receives the arguments
+    of the call."""
+    from ..boolexpr import guards_of
+    out = []
+    sym = db.fn("predicate:symbol")
+    writer = db.fn("predicate:instantiate_class_and_update_cache")
+    cp = sym.positional_params[0]
+    orig_assign = [a for a in own_nodes(sym.node) if isinstance(a, ast.Assign) and len(a.targets) == 1 and isinstance(a.targets[0], ast.Name) and "new" in a.targets[0].id
+                   and any(isinstance(x, ast.Name) and x.id == cp for x in ast.walk(a.value))]
+    if not orig_assign:
+        raise AnalysisError("symbol(): the choice of the allocator was not found")
+    a = orig_assign[0]
+    v = a.value
+    verdict, why = UNDECIDED, f"`{unparse(a)[:70]}`: idiom not in the accepted table"
+    if isinstance(v, ast.IfExp) and "__dict__" in unparse(v.test) and "object.__new__" in unparse(v.orelse):
+        verdict = VIOLATION
+        why = (f"`{unparse(a)[:90]}` takes the class's __new__ only when the class defines it itself and falls back to object.__new__: a __new__ inherited from an "
+               f"undecorated base is skipped silently, and a builtin base raises 'object.__new__(MyInt) is not safe'")
+    elif isinstance(v, ast.Attribute) and v.attr == "__new__" and unparse(v.value) == cp:
+        verdict, why = HOLDS, "the allocator is resolved through the MRO (cls.__new__)"
+    elif isinstance(v, ast.Call) and isinstance(v.func, ast.Name):
+        h = db.fn(f"{sym.module}:{v.func.id}", required=False)
+        if h is not None and any(isinstance(x, ast.Attribute) and x.attr == "__mro__" for x in own_nodes(h.node)):
+            verdict, why = HOLDS, f"the allocator is the first __new__ along the MRO ({h.short})"
+    out.append(inst("ALLOC-AS-UNDECORATED", verdict, sym, "symbol[the allocator Python would use]", why, line=a.lineno))
+    orig = writer.positional_params[1] if len(writer.positional_params) > 1 else "original_new"
+    va = writer.node.args.vararg.arg if writer.node.args.vararg else None
+    kw = writer.node.args.kwarg.arg if writer.node.args.kwarg else None
+    allocs = [c for c in own_calls(writer) if isinstance(c.func, ast.Name) and c.func.id == orig]
+    if not allocs:
+        raise AnalysisError(f"{writer.short}: no call of the allocator found")
+    for c in allocs:
+        forwards = any(isinstance(x, ast.Starred) and unparse(x.value) == va for x in c.args) and any(k.arg is None and unparse(k.value) == kw for k in c.keywords)
+        st = c
+        while not isinstance(st, ast.stmt):
+            st = db.parent(st)
+        g = guards_of(st, writer.node.body) or []
+        only_object = any(pol and isinstance(t, ast.Compare) and len(t.ops) == 1 and isinstance(t.ops[0], (ast.Is, ast.Eq)) and
+                          {unparse(t.left), unparse(t.comparators[0])} == {orig, "object.__new__"} for t, pol in g)
+        ok = forwards or only_object
+        out.append(inst("ALLOC-AS-UNDECORATED", HOLDS if ok else VIOLATION, writer, f"{writer.short}[{unparse(c)[:40]}]",
+                        ("the allocator receives the arguments of the call" if forwards else "called without arguments only when it is object.__new__") if ok else
+                        f"`{unparse(c)}` calls the allocator without the constructor arguments whatever it is: a decorated class that defines __new__(cls, key) cannot be "
+                        f"constructed outside a block (TypeError: missing argument)", line=c.lineno))
     return out
